@@ -430,7 +430,14 @@ class Interp:
 
     def index(self, sl, fr):
         if isinstance(sl, ast.Tuple):
-            return tuple(self._idx1(self.eval(e, fr), fr, sl) for e in sl.elts)
+            elts = sl.elts
+            if self.hooks.get('drop_full_slices'):
+                # "a scalar stands for the array": whole-axis slices `:` select everything along an axis the analysis has collapsed to one element
+                kept = [e for e in elts if not (isinstance(e, ast.Slice) and e.lower is None and e.upper is None and e.step is None)]
+                if len(kept) == 1 and len(elts) > 1:
+                    return self._idx1(self.eval(kept[0], fr), fr, sl)
+                elts = kept
+            return tuple(self._idx1(self.eval(e, fr), fr, sl) for e in elts)
         return self._idx1(self.eval(sl, fr), fr, sl)
 
     def _idx1(self, v, fr, node):
@@ -1032,6 +1039,8 @@ class Interp:
             return X.ZERO if not isinstance(args[0], Arr) else Arr('zeros', default=lambda k: X.ZERO)
         if nm in ('ones_like',):
             return X.ONE
+        if nm == 'empty_like' and args and isinstance(args[0], Arr):
+            return Arr('empty_like', default=None, shape=args[0].shape)
         if nm in ('zeros', 'empty', 'full'):
             shp = args[0] if args else None
             if isinstance(shp, int): shp = (shp,)
